@@ -1,4 +1,10 @@
-//! C18: `depth` — in-process session. Case fields: <maxdepth or _> <n> then n times <command>, then
+//! C18: `iterfp` — generic leak detector. Case fields: <np> prologue commands…, <nb> body commands…, then
+//! (<file name> <file content>)*. One shell; the prologue runs once, then the body 1, 2 and 50 times in all;
+//! after 1, 2 and 50 iterations EVERY integer-valued field and EVERY array/map length of the serde dump of
+//! `Shell` is recorded. Output: the paths whose value after 2 or 50 iterations differs from the value after 1,
+//! as `path=v1/v2/v50` fields (none: the k-th iteration leaves the shell as the first did).
+//!
+//! `depth` — in-process session. Case fields: <maxdepth or _> <n> then n times <command>, then
 //! (<file name> <file content>)* written to the scratch directory `$D`.
 //!   One `run_string` per command on one shell; after each, the scope-stack and call-stack depths
 //!   read from the serde dump of `Shell`, the status and the control flow. Stops after ExitShell.
@@ -7,9 +13,10 @@ use crate::util::{hex, panic_msg, unhex_str};
 use brush_builtins::ShellBuilderExt;
 
 pub fn run(sub: &str, cases: &[Vec<String>]) -> bool {
-    if sub != "depth" {
+    if sub != "depth" && sub != "iterfp" {
         return false;
     }
+    let iterfp = sub == "iterfp";
     // this subcommand runs the shell in-process and its language spawns no child processes; the
     // harness process itself is capped so that a runaway cannot exhaust the machine
     #[allow(unsafe_code)]
@@ -23,7 +30,7 @@ pub fn run(sub: &str, cases: &[Vec<String>]) -> bool {
     let owned: Vec<Vec<String>> = cases.to_vec();
     let h = std::thread::Builder::new()
         .stack_size(256 << 20)
-        .spawn(move || main_depth(&owned))
+        .spawn(move || if iterfp { main_iterfp(&owned) } else { main_depth(&owned) })
         .expect("thread");
     let _ = h.join();
     true
@@ -114,6 +121,121 @@ fn main_depth(cases: &[Vec<String>]) {
         match r {
             Ok(f) => println!(
                 "{}",
+                f.iter().map(|s| hex(s.as_bytes())).collect::<Vec<_>>().join(" ")
+            ),
+            Err(e) => println!("PANIC {}", hex(panic_msg(&e).as_bytes())),
+        }
+    }
+    let _ = std::fs::remove_dir_all(&dir);
+}
+
+
+fn fingerprint(v: &serde_json::Value, path: &str, out: &mut std::collections::BTreeMap<String, i128>) {
+    match v {
+        serde_json::Value::Number(n) => {
+            if let Some(i) = n.as_i64() {
+                out.insert(path.to_string(), i128::from(i));
+            } else if let Some(u) = n.as_u64() {
+                out.insert(path.to_string(), i128::from(u));
+            }
+        }
+        serde_json::Value::Array(a) => {
+            out.insert(format!("{path}#len"), a.len() as i128);
+            for (i, x) in a.iter().enumerate() {
+                fingerprint(x, &format!("{path}[{i}]"), out);
+            }
+        }
+        serde_json::Value::Object(o) => {
+            out.insert(format!("{path}#len"), o.len() as i128);
+            for (k, x) in o {
+                fingerprint(x, &format!("{path}.{k}"), out);
+            }
+        }
+        _ => {}
+    }
+}
+
+fn main_iterfp(cases: &[Vec<String>]) {
+    let rt = tokio::runtime::Builder::new_multi_thread()
+        .worker_threads(2)
+        .enable_all()
+        .build()
+        .expect("rt");
+    let base = std::env::var("VERIF_SCRATCH").unwrap_or_else(|_| "/var/tmp".to_string());
+    let dir = format!("{base}/iterfp-{}", std::process::id());
+    let _ = std::fs::create_dir_all(&dir);
+    for c in cases {
+        let get = |i: usize| c.get(i).map(|s| unhex_str(s)).unwrap_or_default();
+        let np: usize = get(0).parse().unwrap_or(0);
+        let pro: Vec<String> = (0..np).map(|i| get(1 + i)).collect();
+        let nb: usize = get(1 + np).parse().unwrap_or(0);
+        let body: Vec<String> = (0..nb).map(|i| get(2 + np + i)).collect();
+        let mut i = 2 + np + nb;
+        while i + 1 < c.len() {
+            let _ = std::fs::write(format!("{dir}/{}", unhex_str(&c[i])), unhex_str(&c[i + 1]));
+            i += 2;
+        }
+        let _ = std::fs::create_dir_all(format!("{dir}/work"));
+        let dirc = dir.clone();
+        let r = std::panic::catch_unwind(std::panic::AssertUnwindSafe(|| {
+            rt.block_on(async {
+                let out = std::fs::File::options().write(true).open("/dev/null").expect("null");
+                let mut fds = std::collections::HashMap::new();
+                fds.insert(0, brush_core::openfiles::null().expect("null"));
+                fds.insert(1, brush_core::openfiles::OpenFile::from(out.try_clone().expect("clone")));
+                fds.insert(2, brush_core::openfiles::OpenFile::from(out));
+                let mut shell = brush_core::Shell::builder()
+                    .profile(brush_core::ProfileLoadBehavior::Skip)
+                    .rc(brush_core::RcLoadBehavior::Skip)
+                    .default_builtins(brush_builtins::BuiltinSet::BashMode)
+                    .shell_name("brush".to_string())
+                    .do_not_inherit_env(true)
+                    .fds(fds)
+                    .build()
+                    .await
+                    .expect("shell");
+                let params = shell.default_exec_params();
+                let si = brush_core::SourceInfo::from("verif");
+                let _ = shell
+                    .run_string(format!("D={dirc}; PATH=/usr/bin:/bin; cd $D"), &si, &params)
+                    .await;
+                for cmd in &pro {
+                    let _ = shell.run_string(cmd.clone(), &si, &params).await;
+                }
+                let mut fps = vec![];
+                let mut done = 0;
+                for target in [1usize, 2, 50] {
+                    while done < target {
+                        for cmd in &body {
+                            let _ = shell.run_string(cmd.clone(), &si, &params).await;
+                        }
+                        done += 1;
+                    }
+                    let v = serde_json::to_value(&shell).unwrap_or(serde_json::Value::Null);
+                    let mut m = std::collections::BTreeMap::new();
+                    fingerprint(&v, "", &mut m);
+                    fps.push(m);
+                }
+                let mut keys: std::collections::BTreeSet<String> = std::collections::BTreeSet::new();
+                for m in &fps {
+                    keys.extend(m.keys().cloned());
+                }
+                let mut fields = vec![];
+                for k in keys {
+                    let g = |m: &std::collections::BTreeMap<String, i128>| {
+                        m.get(&k).map_or("-".to_string(), |x| x.to_string())
+                    };
+                    let (a, b, c50) = (g(&fps[0]), g(&fps[1]), g(&fps[2]));
+                    if a != b || a != c50 {
+                        fields.push(format!("{k}={a}/{b}/{c50}"));
+                    }
+                }
+                fields
+            })
+        }));
+        match r {
+            Ok(f) => println!(
+                "OK {}",
                 f.iter().map(|s| hex(s.as_bytes())).collect::<Vec<_>>().join(" ")
             ),
             Err(e) => println!("PANIC {}", hex(panic_msg(&e).as_bytes())),
